@@ -250,3 +250,50 @@ def index_below_len_guarded(fn: ast.AST, sub: ast.Subscript) -> bool:
             return False
         node = parent
     return False
+
+
+def local_names(fn: ast.AST) -> set[str]:
+    """Names bound inside the function ``fn`` other than its parameters: assignment / for / with /
+    except / walrus / comprehension targets.  These are spelling: a rule must not depend on them."""
+    a = getattr(fn, "args", None)
+    params: set[str] = set()
+    if a is not None:
+        params = {x.arg for x in a.posonlyargs + a.args + a.kwonlyargs}
+        if a.vararg:
+            params.add(a.vararg.arg)
+        if a.kwarg:
+            params.add(a.kwarg.arg)
+    out: set[str] = set()
+    for n in ast.walk(fn):
+        if isinstance(n, ast.Name) and isinstance(n.ctx, (ast.Store, ast.Del)):
+            out.add(n.id)
+        elif isinstance(n, ast.ExceptHandler) and n.name:
+            out.add(n.name)
+    return out - params
+
+
+def ltext(node: ast.AST, locals_: set[str]) -> str:
+    """``text(node)`` with every local name of the enclosing function written ``_``: the form in
+    which reviewed rows and finding keys name a construct, so that renaming a local variable does
+    not turn a reviewed construct into a new one."""
+    import copy
+
+    n2 = copy.deepcopy(node)
+    for n in ast.walk(n2):
+        if isinstance(n, ast.Name) and n.id in locals_:
+            n.id = "_"
+        elif isinstance(n, ast.ExceptHandler) and n.name in locals_:
+            n.name = "_"
+    return expr_text(n2)
+
+
+def lfrag(fragment: str, locals_: set[str]) -> str:
+    """``ltext`` of a source fragment (an expression, a statement, or a compound-statement header
+    ending in ``:``)."""
+    src = fragment.strip()
+    header = src.endswith(":")
+    tree = ast.parse(src + (" pass" if header else ""))
+    out = ltext(tree, locals_)
+    if header:
+        out = out.rsplit("\n", 1)[0] if "\n" in out else out.removesuffix(" pass")
+    return out
